@@ -39,7 +39,16 @@ def _einsum(arrays, labels, out):
         args.append(a)
         args.append([sym[x] for x in lab])
     args.append([sym[x] for x in out])
-    return np.einsum(*args)
+    # the full label space of the 1D <bra|op|ket> networks is too large for a single nested loop: numpy's own
+    # pairwise ordering is used there (still numpy only)
+    space = 1.0
+    size = {}
+    for a, lab in zip(arrays, labels):
+        for d, x in zip(np.shape(a), lab):
+            size[x] = d
+    for d in size.values():
+        space *= d
+    return np.einsum(*args, optimize="greedy" if space > 5000 else False)
 
 
 def den(arrays, labels, out, exponent=0.0):
@@ -59,13 +68,20 @@ def den_tn(tn, out):
     return den([np.asarray(t.data) for t in ts], [tuple(t.inds) for t in ts], out, tn.exponent)
 
 
+def _no_nested_pools():
+    """the chunk already runs in a (daemonic) worker process: tell cotengra not to create process pools of its own
+    for its hyper-optimizer ('worker subprocesses should not auto-create pools')"""
+    import cotengra.parallel as par
+
+    par._IS_WORKER = True
+
+
 def _rtol(dt):
     return 3e-4 if dt in SINGLE else 1e-9
 
 
-def _cmp(got, ref, scale, rtol, what="value", alt_factor=None):
-    """scale-aware comparison; shapes first.  alt_factor: also accept got*alt_factor (used only by the companion
-    contracts that factor a known scalar-prefactor defect out)"""
+def _cmp(got, ref, scale, rtol, what="value"):
+    """scale-aware comparison; shapes first"""
     got = np.asarray(got)
     ref = np.asarray(ref)
     if got.shape != ref.shape:
@@ -76,10 +92,6 @@ def _cmp(got, ref, scale, rtol, what="value", alt_factor=None):
     err = float(np.max(np.abs(got - ref))) if got.size else 0.0
     if err <= tol:
         return None
-    if alt_factor is not None:
-        err2 = float(np.max(np.abs(got * alt_factor - ref))) if got.size else 0.0
-        if err2 <= tol:
-            return None
     return f"{what}: max abs diff {err:.3e} > tol {tol:.1e} (scale {scale:.3e}); got {got.ravel()[:3]}, ref {ref.ravel()[:3]}"
 
 
@@ -301,7 +313,7 @@ def _value_of(qtn, res, out_labels, strip):
     return a, (), None
 
 
-def _judge(qtn, res, sp, out, strip, what="value", alt_factor=None, expect=None, rtol=None):
+def _judge(qtn, res, sp, out, strip, what="value", expect=None, rtol=None):
     """compare a route's result with the reference value of `sp` over `out` (None: inferred outputs, any order)"""
     exp_labels = sp.inferred if out is None else tuple(out)
     arr, lab, err = _value_of(qtn, res, exp_labels, strip)
@@ -309,6 +321,8 @@ def _judge(qtn, res, sp, out, strip, what="value", alt_factor=None, expect=None,
         return err
     if expect == "tn" and not isinstance(res, qtn.TensorNetwork):
         return f"in-place call returned {type(res).__name__}, not the network"
+    if expect in ("value", "tensor") and isinstance(res, qtn.TensorNetwork):
+        return "everything was contracted, not in place, yet a TensorNetwork came back instead of a tensor / scalar"
     if expect == "tensor":
         r0 = res[0] if strip and isinstance(res, tuple) else res
         if not isinstance(r0, qtn.Tensor):
@@ -322,12 +336,7 @@ def _judge(qtn, res, sp, out, strip, what="value", alt_factor=None, expect=None,
         if lab != exp_labels and arr.ndim == len(lab):
             arr = np.transpose(arr, [lab.index(x) for x in exp_labels])
     ref, scale = sp.ref(exp_labels)
-    return _cmp(arr, ref, scale, rtol or _rtol(sp.dtype), what, alt_factor)
-
-
-def _pre(sp):
-    """10**exponent of the input network (the factor that known defects drop)"""
-    return 10.0 ** sp.exponent
+    return _cmp(arr, ref, scale, rtol or _rtol(sp.dtype), what)
 
 
 # ----------------------------------------------------------------------------------------------
@@ -343,7 +352,6 @@ N_XOR_TAGS = "tn ^ tags with tags matching every tensor == einsum reference x 10
 N_RSHIFT = "tn >> tag groups covering every tensor == einsum reference x 10**exponent"
 N_TC = "tensor_contract(*tensors, exponent=e) / Tensor.contract == einsum reference x 10**e"
 N_ITEM = "item() of a network contracted in place to a scalar == einsum reference x 10**exponent"
-COMPANION = " [companion: everything but the stored prefactor 10**exponent]"
 
 
 def _cum_groups(rng, sp):
@@ -377,9 +385,10 @@ def _cum_groups(rng, sp):
 def full_routes(cx):
     import quimb.tensor as qtn
 
+    _no_nested_pools()
     rng = cx.rng
     nts = [1, 2, 3, 4, 5] if cx.quick else [1, 2, 3, 4, 5, 6]
-    reps = 2 if cx.quick else 14
+    reps = 8 if cx.quick else 80
     grid = [(nt, hy, dt, ei, r) for nt in nts for hy in (False, True) for dt in DTYPES for ei in range(5)
             for r in range(reps)]
     for i, (nt, hy, dt, ei, r) in enumerate(grid):
@@ -412,7 +421,7 @@ def full_routes(cx):
                     res = tn.contract(tg, optimize=opt, strip_exponent=strip, preserve_tensor=pt, inplace=inplace, **okw)
                     if inplace and res is not tn:
                         return "in-place contraction did not return the network itself"
-                    err = _judge(qtn, res, sp, out, strip, expect="tn" if inplace else "tensor" if pt else None)
+                    err = _judge(qtn, res, sp, out, strip, expect="tn" if inplace else "tensor" if pt else "value")
                     if err or inplace:
                         return err
                     # not in place: the receiver still denotes the same value
@@ -428,14 +437,12 @@ def full_routes(cx):
                 p = dict(pb, tags=tags, opt=oname, strip=strip, inplace=inplace)
                 if oname == "path":
                     p["path"] = [list(x) for x in opt]
-                for comp in ((False, True) if (e != 0.0 and not inplace) else (False,)):
-                    def thunk(tags=tags, opt=opt, strip=strip, inplace=inplace, out=out, okw=okw, sp=sp, comp=comp):
-                        tn = sp.mk(qtn)
-                        res = tn.contract(tags, optimize=opt, strip_exponent=strip, inplace=inplace, **okw)
-                        return _judge(qtn, res, sp, out, strip, expect="tn" if inplace else None,
-                                      alt_factor=_pre(sp) if comp else None)
+                def thunk(tags=tags, opt=opt, strip=strip, inplace=inplace, out=out, okw=okw, sp=sp):
+                    tn = sp.mk(qtn)
+                    res = tn.contract(tags, optimize=opt, strip_exponent=strip, inplace=inplace, **okw)
+                    return _judge(qtn, res, sp, out, strip, expect="tn" if inplace else "value")
 
-                    cx.check(N_TAGS_ALL + (COMPANION if comp else ""), p, thunk)
+                cx.check(N_TAGS_ALL, p, thunk)
             # ---- contract_tags covering every tensor -------------------------------------------------------
             for s in range(3):
                 tags, which = [("N", "any"), (["N", "T0"], "any"), (["N"], "all"), (..., "any"), (all, "all"),
@@ -448,25 +455,23 @@ def full_routes(cx):
                          strip=strip, pt=pt, eq=eq, inplace=inplace)
                 if oname == "path":
                     p["path"] = [list(x) for x in opt]
-                for comp in ((False, True) if (e != 0.0 and not inplace) else (False,)):
-                    def thunk(tags=tags, which=which, opt=opt, strip=strip, pt=pt, eq=eq, inplace=inplace, out=out,
-                              okw=okw, sp=sp, comp=comp):
-                        tn = sp.mk(qtn)
-                        if inplace and strip:  # the in-place alias
-                            res = tn.contract_tags_(tags, which=which, optimize=opt, strip_exponent=strip,
-                                                    preserve_tensor=pt, equalize_norms=eq, **okw)
-                        else:
-                            res = tn.contract_tags(tags, which=which, optimize=opt, strip_exponent=strip,
-                                                   preserve_tensor=pt, equalize_norms=eq, inplace=inplace, **okw)
-                        if inplace and res is not tn:
-                            return "in-place contract_tags did not return the network itself"
-                        err = _judge(qtn, res, sp, out, strip, expect="tn" if inplace else "tensor" if pt else None,
-                                     alt_factor=_pre(sp) if comp else None)
-                        if err or inplace:
-                            return err
-                        return _judge(qtn, tn, sp, out, False, what="receiver after a non-in-place call")
+                def thunk(tags=tags, which=which, opt=opt, strip=strip, pt=pt, eq=eq, inplace=inplace, out=out,
+                          okw=okw, sp=sp):
+                    tn = sp.mk(qtn)
+                    if inplace and strip:  # the in-place alias
+                        res = tn.contract_tags_(tags, which=which, optimize=opt, strip_exponent=strip,
+                                                preserve_tensor=pt, equalize_norms=eq, **okw)
+                    else:
+                        res = tn.contract_tags(tags, which=which, optimize=opt, strip_exponent=strip,
+                                               preserve_tensor=pt, equalize_norms=eq, inplace=inplace, **okw)
+                    if inplace and res is not tn:
+                        return "in-place contract_tags did not return the network itself"
+                    err = _judge(qtn, res, sp, out, strip, expect="tn" if inplace else "tensor" if pt else "value")
+                    if err or inplace:
+                        return err
+                    return _judge(qtn, tn, sp, out, False, what="receiver after a non-in-place call")
 
-                    cx.check(N_CTAGS + (COMPANION if comp else ""), p, thunk)
+                cx.check(N_CTAGS, p, thunk)
             # ---- contract_cumulative over groups covering every tensor ----------------------------------------
             for s in range(2):
                 seq, steps = _cum_groups(rng, sp)
@@ -483,7 +488,7 @@ def full_routes(cx):
                     kw = dict(okw) if oname == "default" else dict(okw, optimize=oname)
                     res = tn.contract_cumulative(seq, strip_exponent=strip, preserve_tensor=pt, equalize_norms=eq,
                                                  inplace=inplace, **kw)
-                    err = _judge(qtn, res, sp, out, strip, expect="tn" if inplace else "tensor" if pt else None)
+                    err = _judge(qtn, res, sp, out, strip, expect="tn" if inplace else "tensor" if pt else "value")
                     if err or inplace:
                         return err
                     return _judge(qtn, tn, sp, out, False, what="receiver after a non-in-place call")
@@ -508,13 +513,12 @@ def full_routes(cx):
             cx.check(N_TC, p, thunk)
             # ---- item() after an in-place contraction to a scalar ----------------------------------------------
             if (out is None and not sp.inferred) or out == ():
-                for comp in ((False, True) if e != 0.0 else (False,)):
-                    def thunk(out=out, okw=okw, sp=sp, comp=comp):
-                        tn = sp.mk(qtn)
-                        tn.contract_(all, **okw)
-                        return _judge(qtn, tn.item(), sp, (), False, alt_factor=_pre(sp) if comp else None)
+                def thunk(out=out, okw=okw, sp=sp):
+                    tn = sp.mk(qtn)
+                    tn.contract_(all, **okw)
+                    return _judge(qtn, tn.item(), sp, (), False)
 
-                    cx.check(N_ITEM + (COMPANION if comp else ""), pb, thunk)
+                cx.check(N_ITEM, pb, thunk)
             # ---- operators (only inferred outputs can be asked for) --------------------------------------------
             if out is None:
                 for form in ("^all", "^...", "^=all", "^=..."):
@@ -533,15 +537,14 @@ def full_routes(cx):
                             if tn is not keep:
                                 return "^= rebound the name to another object"
                             res = tn
-                        return _judge(qtn, res, sp, None, False, expect="tn" if "=" in form else None)
+                        return _judge(qtn, res, sp, None, False, expect="tn" if "=" in form else "value")
 
                     cx.check(N_XOR, dict(pb, form=form), thunk)
                 tags = ["N", [f"T{k}" for k in rng.permutation(nt)]][int(rng.integers(0, 2))]
-                for comp in ((False, True) if e != 0.0 else (False,)):
-                    def thunk(tags=tags, sp=sp, comp=comp):
-                        return _judge(qtn, sp.mk(qtn) ^ tags, sp, None, False, alt_factor=_pre(sp) if comp else None)
+                def thunk(tags=tags, sp=sp):
+                    return _judge(qtn, sp.mk(qtn) ^ tags, sp, None, False)
 
-                    cx.check(N_XOR_TAGS + (COMPANION if comp else ""), dict(pb, tags=tags, inplace=False), thunk)
+                cx.check(N_XOR_TAGS, dict(pb, tags=tags, inplace=False), thunk)
                 seq, steps = _cum_groups(rng, sp)
                 fails = sp.inference_fails(steps, sp.inferred)
                 for form in (">>", ">>="):
@@ -552,7 +555,7 @@ def full_routes(cx):
                         else:
                             tn >>= seq
                             res = tn
-                        return _judge(qtn, res, sp, None, False, expect="tn" if "=" in form else None)
+                        return _judge(qtn, res, sp, None, False, expect="tn" if "=" in form else "value")
 
                     cx.check(N_RSHIFT, dict(pb, form=form, seq=seq, local_inference_fails=fails), thunk)
 
@@ -615,9 +618,10 @@ def _partial_judge(qtn, res, tn, sp, out, n_expected, inplace, rtol=None):
 def partial(cx):
     import quimb.tensor as qtn
 
+    _no_nested_pools()
     rng = cx.rng
     nts = [2, 3, 4, 5] if cx.quick else [2, 3, 4, 5, 6]
-    reps = 2 if cx.quick else 12
+    reps = 8 if cx.quick else 80
     grid = [(nt, hy, dt, ei, r) for nt in nts for hy in (False, True) for dt in DTYPES for ei in range(5)
             for r in range(reps)]
     for i, (nt, hy, dt, ei, r) in enumerate(grid):
@@ -806,9 +810,10 @@ def _groups(rng, out):
 def dense_norm(cx):
     import quimb.tensor as qtn
 
+    _no_nested_pools()
     rng = cx.rng
     nts = [1, 2, 3, 4, 5] if cx.quick else [1, 2, 3, 4, 5, 6]
-    reps = 2 if cx.quick else 12
+    reps = 8 if cx.quick else 80
     grid = [(nt, hy, dt, ei, r) for nt in nts for hy in (False, True) for dt in DTYPES for ei in range(5)
             for r in range(reps)]
     for i, (nt, hy, dt, ei, r) in enumerate(grid):
@@ -848,20 +853,18 @@ def dense_norm(cx):
             p = dict(base, groups=g, opt=oname, tags=tg, to_qarray=qa)
             if oname == "path":
                 p["path"] = [list(x) for x in opt]
-            comps = (False, True) if (tg == "tags" and e != 0.0) else (False,)
-            for comp in comps:
-                def thunk(g=g, o=o, opt=opt, tg=tg, qa=qa, sp=sp, comp=comp):
-                    tn = sp.mk(qtn)
-                    kw = {"optimize": opt}
-                    if tg != "default":
-                        kw["tags"] = {"all": all, "...": ..., "tags": ["N"]}[tg]
-                    got = tn.to_qarray(*g, **kw) if qa else tn.to_dense(*g, **kw)
-                    ref, scale = sp.ref(o)
-                    shape = tuple(int(np.prod([sp.sizes[x] for x in grp])) for grp in g)
-                    return _cmp(got, ref.reshape(shape), scale, rtol, "to_dense", alt_factor=_pre(sp) if comp else None)
+            def thunk(g=g, o=o, opt=opt, tg=tg, qa=qa, sp=sp):
+                tn = sp.mk(qtn)
+                kw = {"optimize": opt}
+                if tg != "default":
+                    kw["tags"] = {"all": all, "...": ..., "tags": ["N"]}[tg]
+                got = tn.to_qarray(*g, **kw) if qa else tn.to_dense(*g, **kw)
+                ref, scale = sp.ref(o)
+                shape = tuple(int(np.prod([sp.sizes[x] for x in grp])) for grp in g)
+                return _cmp(got, ref.reshape(shape), scale, rtol, "to_dense")
 
-                cx.check(N_DENSE + (" [tags matching every tensor]" if tg == "tags" else "") + (COMPANION if comp else ""),
-                         dict(p, inplace=False), thunk)
+            cx.check(N_DENSE + (" [tags matching every tensor]" if tg == "tags" else ""),
+                     dict(p, inplace=False), thunk)
         # ---- norm -----------------------------------------------------------------------------------------
         for s in range(2):
             squared, strip = bool(rng.integers(0, 2)), bool(rng.integers(0, 2))
@@ -968,16 +971,15 @@ def dense_norm(cx):
                 p["path"] = [list(x) for x in opt]
             ren = dict(zip(left, right))
             spt = Spec(sp.arrays, [tuple(ren.get(x, x) for x in lab) for lab in sp.labels], sp.tags, e, dt)
-            for comp in ((False, True) if e != 0.0 else (False,)):
-                def thunk(left=left, right=right, rest=rest, opt=opt, strip=strip, sp=sp, spt=spt, comp=comp):
-                    tn = sp.mk(qtn)
-                    got = tn.trace(left, right, optimize=opt, strip_exponent=strip)
-                    err = _judge(qtn, got, spt, None, strip, what="trace", alt_factor=_pre(sp) if comp else None)
-                    if err:
-                        return err
-                    return _judge(qtn, tn, sp, None, False, what="receiver after trace")
+            def thunk(left=left, right=right, rest=rest, opt=opt, strip=strip, sp=sp, spt=spt):
+                tn = sp.mk(qtn)
+                got = tn.trace(left, right, optimize=opt, strip_exponent=strip)
+                err = _judge(qtn, got, spt, None, strip, what="trace")
+                if err:
+                    return err
+                return _judge(qtn, tn, sp, None, False, what="receiver after trace")
 
-                cx.check(N_TRACE + (COMPANION if comp else ""), p, thunk)
+            cx.check(N_TRACE, p, thunk)
         # ---- a @ b ------------------------------------------------------------------------------------------
         if not sp.hyper and nt >= 2:
             k = int(rng.integers(1, nt))
@@ -1048,9 +1050,10 @@ def linop(cx):
     import quimb.tensor as qtn
     from quimb.tensor.tensor_core import TNLinearOperator as TNLO
 
+    _no_nested_pools()
     rng = cx.rng
     nts = [1, 2, 3, 4] if cx.quick else [1, 2, 3, 4, 5]
-    reps = 2 if cx.quick else 10
+    reps = 6 if cx.quick else 60
     grid = [(nt, hy, dt, ei, r) for nt in nts for hy in (False, True) for dt in DTYPES for ei in range(5)
             for r in range(reps)]
     vnames = list(VIEWS)
@@ -1110,9 +1113,6 @@ def linop(cx):
             if cplx or force_complex:
                 x = x + 1j * rng.normal(size=shape)
             return x
-
-        pre = 10.0 ** spx.exponent
-        comps = (False, True) if has_e else (False,)
         # the views to exercise for this operator: base + 3 others
         vsel = ["base"] + [vnames[int(j)] for j in rng.permutation(np.arange(1, len(vnames)))[:3]]
         for vn in vsel:
@@ -1123,93 +1123,84 @@ def linop(cx):
             kcols = int(rng.integers(1, 4))
             x1, xk = vec(ncol, None, force_complex=bool(rng.integers(0, 2))), vec(ncol, kcols)
             y1, yk = vec(nrow), vec(nrow, kcols)
-            for comp in comps:
-                def thunk(mkview=mkview, mview=mview, x1=x1, xk=xk, comp=comp, nrow=nrow, ncol=ncol):
-                    A = mkview(build())
-                    M, scale = dense()
-                    M = mview(M)
-                    if tuple(A.shape) != M.shape:
-                        return f"operator shape {A.shape} != {M.shape}"
-                    alt = pre if comp else None
-                    for nm, got, ref, xx in (("A @ v", lambda: A @ x1, M @ x1, x1), ("A.matvec(v)", lambda: A.matvec(x1), M @ x1, x1),
-                                             ("A.dot(v)", lambda: A.dot(x1), M @ x1, x1),
-                                             ("A @ column", lambda: A @ x1[:, None], (M @ x1)[:, None], x1),
-                                             ("A @ V", lambda: A @ xk, M @ xk, xk), ("A.matmat(V)", lambda: A.matmat(xk), M @ xk, xk)):
-                        err = _cmp(got(), ref, scale * float(np.max(np.sum(np.abs(xx), axis=0))), 4 * rtol, nm, alt)
-                        if err:
-                            return err
+            def thunk(mkview=mkview, mview=mview, x1=x1, xk=xk, nrow=nrow, ncol=ncol):
+                A = mkview(build())
+                M, scale = dense()
+                M = mview(M)
+                if tuple(A.shape) != M.shape:
+                    return f"operator shape {A.shape} != {M.shape}"
+                for nm, got, ref, xx in (("A @ v", lambda: A @ x1, M @ x1, x1), ("A.matvec(v)", lambda: A.matvec(x1), M @ x1, x1),
+                                         ("A.dot(v)", lambda: A.dot(x1), M @ x1, x1),
+                                         ("A @ column", lambda: A @ x1[:, None], (M @ x1)[:, None], x1),
+                                         ("A @ V", lambda: A @ xk, M @ xk, xk), ("A.matmat(V)", lambda: A.matmat(xk), M @ xk, xk)):
+                    err = _cmp(got(), ref, scale * float(np.max(np.sum(np.abs(xx), axis=0))), 4 * rtol, nm)
+                    if err:
+                        return err
 
-                cx.check(N_LO + "matvec / matmat of the view == dense reference (x 10**exponent) @ x" + (COMPANION if comp else ""),
-                         pv, thunk)
+            cx.check(N_LO + "matvec / matmat of the view == dense reference (x 10**exponent) @ x",
+                     pv, thunk)
 
-                def thunk(mkview=mkview, mview=mview, y1=y1, yk=yk, comp=comp):
-                    A = mkview(build())
-                    M, scale = dense()
-                    MH = mview(M).conj().T
-                    alt = pre if comp else None
-                    for nm, got, ref, xx in (("A.rmatvec(w)", lambda: A.rmatvec(y1), MH @ y1, y1),
-                                             ("A.rmatmat(W)", lambda: A.rmatmat(yk), MH @ yk, yk)):
-                        err = _cmp(got(), ref, scale * float(np.max(np.sum(np.abs(xx), axis=0))), 4 * rtol, nm, alt)
-                        if err:
-                            return err
+            def thunk(mkview=mkview, mview=mview, y1=y1, yk=yk):
+                A = mkview(build())
+                M, scale = dense()
+                MH = mview(M).conj().T
+                for nm, got, ref, xx in (("A.rmatvec(w)", lambda: A.rmatvec(y1), MH @ y1, y1),
+                                         ("A.rmatmat(W)", lambda: A.rmatmat(yk), MH @ yk, yk)):
+                    err = _cmp(got(), ref, scale * float(np.max(np.sum(np.abs(xx), axis=0))), 4 * rtol, nm)
+                    if err:
+                        return err
 
-                cx.check(N_LO + "rmatvec / rmatmat of the view == adjoint of the dense reference @ w" + (COMPANION if comp else ""),
-                         pv, thunk)
+            cx.check(N_LO + "rmatvec / rmatmat of the view == adjoint of the dense reference @ w",
+                     pv, thunk)
             # ---- to_dense of the view ------------------------------------------------------------------------
             custom = bool(rng.integers(0, 2))
-            for comp in comps:
-                def thunk(mkview=mkview, mview=mview, comp=comp, custom=custom, vn=vn):
-                    A = mkview(build())
-                    M, scale = dense()
-                    alt = pre if comp else None
-                    kw = {"output_inds": tuple(left) + tuple(right)} if sp.needs_explicit(tuple(left) + tuple(right)) else {}
-                    err = _cmp(A.to_dense(**kw), mview(M), scale, 4 * rtol, "to_dense()", alt)
-                    if err or kw:
-                        return err
-                    err = _cmp(A.A, mview(M), scale, 4 * rtol, ".A", alt)
-                    if err or not custom:
-                        return err
-                    # custom grouping: (right, left) of the *base* labels -> transpose of the base matrix, conjugated
-                    # when the view conjugates
-                    Mc = M.conj() if VIEWS[vn][2] else M
-                    return _cmp(A.to_dense(right, left), Mc.T, scale, 4 * rtol, "to_dense(right, left)", alt)
+            def thunk(mkview=mkview, mview=mview, custom=custom, vn=vn):
+                A = mkview(build())
+                M, scale = dense()
+                kw = {"output_inds": tuple(left) + tuple(right)} if sp.needs_explicit(tuple(left) + tuple(right)) else {}
+                err = _cmp(A.to_dense(**kw), mview(M), scale, 4 * rtol, "to_dense()")
+                if err or kw:
+                    return err
+                err = _cmp(A.A, mview(M), scale, 4 * rtol, ".A")
+                if err or not custom:
+                    return err
+                # custom grouping: (right, left) of the *base* labels -> transpose of the base matrix, conjugated
+                # when the view conjugates
+                Mc = M.conj() if VIEWS[vn][2] else M
+                return _cmp(A.to_dense(right, left), Mc.T, scale, 4 * rtol, "to_dense(right, left)")
 
-                cx.check(N_LO + "to_dense of the view == dense reference (x 10**exponent)" + (COMPANION if comp else ""),
-                         dict(pv, custom=custom), thunk)
+            cx.check(N_LO + "to_dense of the view == dense reference (x 10**exponent)",
+                     dict(pv, custom=custom), thunk)
             # ---- astype of the view --------------------------------------------------------------------------
             targets = {"float64": ["float32", "complex128"], "float32": ["float64", "complex64"],
                        "complex128": ["complex64"], "complex64": ["complex128"]}[dt]
             dt2 = targets[int(rng.integers(0, len(targets)))]
-            for comp in comps:
-                def thunk(mkview=mkview, mview=mview, x1=x1, comp=comp, dt2=dt2):
-                    A = mkview(build()).astype(dt2)
-                    M, scale = dense()
-                    M = mview(M)
-                    if tuple(A.shape) != M.shape:
-                        return f"operator shape {A.shape} != {M.shape}"
-                    if np.dtype(A.dtype) != np.dtype(dt2):
-                        return f"astype({dt2}) gave dtype {A.dtype}"
-                    rt = 4 * max(rtol, _rtol(dt2))
-                    alt = pre if comp else None
-                    return _cmp(A @ x1, M @ x1, scale * float(np.sum(np.abs(x1))), rt, "astype(dt) @ v", alt)
+            def thunk(mkview=mkview, mview=mview, x1=x1, dt2=dt2):
+                A = mkview(build()).astype(dt2)
+                M, scale = dense()
+                M = mview(M)
+                if tuple(A.shape) != M.shape:
+                    return f"operator shape {A.shape} != {M.shape}"
+                if np.dtype(A.dtype) != np.dtype(dt2):
+                    return f"astype({dt2}) gave dtype {A.dtype}"
+                rt = 4 * max(rtol, _rtol(dt2))
+                return _cmp(A @ x1, M @ x1, scale * float(np.sum(np.abs(x1))), rt, "astype(dt) @ v")
 
-                cx.check(N_LO + "astype(dtype) of the view still acts as the view" + (COMPANION if comp else ""),
-                         dict(pv, astype=dt2), thunk)
+            cx.check(N_LO + "astype(dtype) of the view still acts as the view",
+                     dict(pv, astype=dt2), thunk)
         # ---- trace (square operators of non-hyper networks) ----------------------------------------------------
         if ld == rd and len(left) == len(right) and not sp.hyper and all(
                 sp.sizes[a] == sp.sizes[b] for a, b in zip(left, right)) and set(left + right) == set(sp.inferred):
-            for comp in comps:
-                def thunk(comp=comp):
-                    A = build()
-                    M, scale = dense()
-                    # pairing left[k] with right[k]: trace of the matrix with rows (left) and columns (right)
-                    ref = np.trace(M)
-                    alt = pre if comp else None
-                    err = _cmp(A.trace(), ref, scale * ld, 4 * rtol, "A.trace()", alt)
-                    return err or _cmp(np.trace(A), ref, scale * ld, 4 * rtol, "np.trace(A)", alt)
+            def thunk():
+                A = build()
+                M, scale = dense()
+                # pairing left[k] with right[k]: trace of the matrix with rows (left) and columns (right)
+                ref = np.trace(M)
+                err = _cmp(A.trace(), ref, scale * ld, 4 * rtol, "A.trace()")
+                return err or _cmp(np.trace(A), ref, scale * ld, 4 * rtol, "np.trace(A)")
 
-                cx.check(N_LO + "trace() == trace of the dense reference (x 10**exponent)" + (COMPANION if comp else ""),
-                         base, thunk)
+            cx.check(N_LO + "trace() == trace of the dense reference (x 10**exponent)",
+                     base, thunk)
 
 
 # ----------------------------------------------------------------------------------------------
@@ -1254,9 +1245,10 @@ def _spec_of(tn, dtype):
 def structured(cx):
     import quimb.tensor as qtn
 
+    _no_nested_pools()
     rng = cx.rng
     Ls = [1, 2, 3, 4, 5] if cx.quick else [1, 2, 3, 4, 5, 6]
-    reps = 2 if cx.quick else 10
+    reps = 8 if cx.quick else 80
     grid = [(L, cyc, dt, ei, r) for L in Ls for cyc in (False, True) for dt in DTYPES for ei in range(5)
             for r in range(reps)]
     for i, (L, cyc, dt, ei, r) in enumerate(grid):
@@ -1355,17 +1347,15 @@ def structured(cx):
 
             cx.check(N_S_DENSE, base, thunk)
             if kind == "mpo":
-                for comp in ((False, True) if e != 0.0 else (False,)):
-                    def thunk(comp=comp):
-                        tn, _ = build()
-                        sp = _spec_of(tn, dt)
-                        up, lo = [f"k{k}" for k in range(L)], [f"b{k}" for k in range(L)]
-                        ref, scale = sp.ref(up + lo)
-                        d = int(np.prod(phys))
-                        return _cmp(tn.trace(), np.trace(ref.reshape(d, d)), scale * d, 4 * rtol, "MPO.trace()",
-                                    alt_factor=10.0 ** sp.exponent if comp else None)
+                def thunk():
+                    tn, _ = build()
+                    sp = _spec_of(tn, dt)
+                    up, lo = [f"k{k}" for k in range(L)], [f"b{k}" for k in range(L)]
+                    ref, scale = sp.ref(up + lo)
+                    d = int(np.prod(phys))
+                    return _cmp(tn.trace(), np.trace(ref.reshape(d, d)), scale * d, 4 * rtol, "MPO.trace()")
 
-                    cx.check(N_S_TRACE + (COMPANION if comp else ""), base, thunk)
+                cx.check(N_S_TRACE, base, thunk)
         # ---- full structured contraction -------------------------------------------------------------------------
         for s in range(4):
             bsz = [1, 2, 3, 5][int(rng.integers(0, 4))]
@@ -1407,7 +1397,7 @@ def structured(cx):
                     res, strip_ = tn.contract(slice(0, L), **kw), strip
                 else:
                     res, strip_ = tn.contract(slice(None), **kw), strip
-                err = _judge(qtn, res, sp, out, strip_, expect="tn" if inplace else None)
+                err = _judge(qtn, res, sp, out, strip_, expect="tn" if inplace else "value")
                 if err or inplace:
                     return err
                 return _judge(qtn, tn, sp, None, False, what="receiver after a non-in-place call")
